@@ -27,6 +27,7 @@ type Mutant struct {
 	} `yaml:"edits,omitempty"` // additional edits (possibly in other files)
 	Expect string `yaml:"expect"` // substring of a failing obligation key; "" for benign
 	Benign bool   `yaml:"benign"`
+	Patch  string `yaml:"patch,omitempty"` // unified diff (path relative to checker/mutants) applied hunk by hunk instead of file/find/replace
 }
 
 type SelfTestResult struct {
@@ -65,6 +66,7 @@ func RunOn(id string, p *load.Program, kf *report.KnownFindings) (failing []repo
 // rules fire at the named construct (or stay silent for benign variants).
 func SelfTest(id, dir, verif string) SelfTestResult {
 	res := SelfTestResult{Info: map[string]any{}}
+	MutantsDir = filepath.Join(verif, "checker", "mutants")
 	path := filepath.Join(verif, "checker", "mutants", id+".yaml")
 	b, err := os.ReadFile(path)
 	if err != nil {
@@ -154,9 +156,66 @@ func SelfTest(id, dir, verif string) SelfTestResult {
 	return res
 }
 
+// MutantsDir is set by SelfTest so that patch files are found next to the YAML files.
+var MutantsDir string
+
+type edit struct{ file, find, replace string }
+
+// editsFromPatch turns a unified diff into one find/replace edit per hunk (context and removed lines → context
+// and added lines). A hunk whose old text is not found exactly once makes the variant "skipped".
+func editsFromPatch(path string) ([]edit, error) {
+	b, err := os.ReadFile(path)
+	if err != nil {
+		return nil, err
+	}
+	var out []edit
+	file := ""
+	var oldB, newB strings.Builder
+	inHunk := false
+	flush := func() {
+		if inHunk && file != "" {
+			out = append(out, edit{file, oldB.String(), newB.String()})
+		}
+		oldB.Reset()
+		newB.Reset()
+		inHunk = false
+	}
+	for _, ln := range strings.SplitAfter(string(b), "\n") {
+		switch {
+		case strings.HasPrefix(ln, "diff --git "), strings.HasPrefix(ln, "index "), strings.HasPrefix(ln, "new file mode"), strings.HasPrefix(ln, "--- "):
+			flush()
+		case strings.HasPrefix(ln, "+++ "):
+			flush()
+			file = strings.TrimSpace(strings.TrimPrefix(strings.TrimPrefix(ln, "+++ "), "b/"))
+		case strings.HasPrefix(ln, "@@"):
+			flush()
+			inHunk = true
+		case inHunk && strings.HasPrefix(ln, "+"):
+			newB.WriteString(ln[1:])
+		case inHunk && strings.HasPrefix(ln, "-"):
+			oldB.WriteString(ln[1:])
+		case inHunk && strings.HasPrefix(ln, " "):
+			oldB.WriteString(ln[1:])
+			newB.WriteString(ln[1:])
+		case inHunk && strings.HasPrefix(ln, "\\"):
+			// "\ No newline at end of file"
+		}
+	}
+	flush()
+	return out, nil
+}
+
 func overlayFor(dir string, m Mutant) (map[string][]byte, bool, error) {
-	type edit struct{ file, find, replace string }
-	edits := []edit{{m.File, m.Find, m.Replace}}
+	var edits []edit
+	if m.Patch != "" {
+		es, err := editsFromPatch(filepath.Join(MutantsDir, m.Patch))
+		if err != nil {
+			return nil, true, err
+		}
+		edits = es
+	} else {
+		edits = []edit{{m.File, m.Find, m.Replace}}
+	}
 	for _, e := range m.Edits {
 		edits = append(edits, edit{e.File, e.Find, e.Replace})
 	}
@@ -167,9 +226,17 @@ func overlayFor(dir string, m Mutant) (map[string][]byte, bool, error) {
 		if !ok {
 			b, err := os.ReadFile(abs)
 			if err != nil {
-				return nil, true, fmt.Errorf("file %s missing", e.file)
+				if e.find == "" {
+					b = nil // a file the patch creates
+				} else {
+					return nil, true, fmt.Errorf("file %s missing", e.file)
+				}
 			}
 			src = b
+		}
+		if e.find == "" && len(src) == 0 {
+			ov[abs] = []byte(e.replace)
+			continue
 		}
 		s := string(src)
 		if n := strings.Count(s, e.find); n != 1 {
